@@ -60,6 +60,12 @@ PROPS = {
              "(client secret, PKCE verifiers, refresh/access/ID tokens) is a unique marker searched in every answer, raw and after URL/base64 decoding; non-trivial = a non-OK answer was produced "
              "while secrets were live; distinct = canonical event trace",
              {"runs": 6000, "budget_s": 35}, {"runs": 600000, "budget_s": 900}, must={"all": ["non-ok-responses-while-secrets-live", "responses-scanned"]}),
+    "C02": P("plans = histories mixing honest and Byzantine token answers on the login and the refresh path (adversarial grammar: alg=none, HMAC-with-public-key confusion, foreign key with "
+             "same/other/no kid, another provider's key, tampered payload or signature, stripped signature, extra dots, two parts, JWS JSON serialisation, nested, empty, garbage, whitespace, "
+             "absent/foreign/near-miss/substring/array-without audience, absent/foreign/empty/previous nonce, another session's token), key rotation and key-source errors around validation, "
+             "all header/preamble configurations; every token bound to a session and every stored token is re-verified by a std-lib-only verifier against the provider's keys and ledger; "
+             "non-trivial = at least one forged answer was delivered and at least one honest token was bound; distinct = canonical event trace",
+             {"runs": 8000, "budget_s": 30}, {"runs": 800000, "budget_s": 900}, must={"all": ["forged-answers", "tokens-bound", "justified-ok"]}),
 }
 
 
